@@ -57,6 +57,17 @@ def compute_ctc(mm, fl_channel):
         **ctdict)
 
 
+def fl_max_available(mm):
+    """Return the list of available fluorescence maxima for hashing
+
+    The cross-talk correction depends on which of the three channels
+    exist (not only on those required by a two-channel recipe). The
+    return value is not a boolean and thus becomes part of the hash
+    of the ancillary feature.
+    """
+    return [ft for ft in ["fl1_max", "fl2_max", "fl3_max"] if ft in mm]
+
+
 def compute_ctc1(mm):
     return compute_ctc(mm, fl_channel=1)
 
@@ -116,6 +127,7 @@ def register():
                          method=get_method(flch),
                          req_features=opts_12[0],
                          req_config=[["calculation", opts_12[1]]],
+                         req_func=fl_max_available,
                          priority=0)
 
     for flch in [1, 3]:
@@ -123,6 +135,7 @@ def register():
                          method=get_method(flch),
                          req_features=opts_13[0],
                          req_config=[["calculation", opts_13[1]]],
+                         req_func=fl_max_available,
                          priority=0)
 
     for flch in [2, 3]:
@@ -130,4 +143,5 @@ def register():
                          method=get_method(flch),
                          req_features=opts_23[0],
                          req_config=[["calculation", opts_23[1]]],
+                         req_func=fl_max_available,
                          priority=0)
